@@ -326,6 +326,8 @@ def native_grid_replay(o=None):
 
 
 def run(R):
+    from engine.canary import run_canaries
+    run_canaries(R, ('symx',))
     R.assume('A1', 'A2', 'A6')
     R.trust('numpy contract: len(np.arange(N)) == N and np.arange(N)[i] == i for integer N >= 0; meshgrid(indexing="ij") broadcasts axis n of the n-th argument')
     R.notes.append('x_i = min + i*d is proved over the reals (A1); in binary64 the stored value is the correctly rounded fl(min + fl(i*d)), a deviation of at most 1 ulp each, which is reported here and not proved')
